@@ -41,13 +41,14 @@ extern void* __real_malloc(size_t);
 extern void* __real_calloc(size_t, size_t);
 #define MAXBLK 65536
 #define MAXFAULT 8
-typedef struct { void* p; size_t size; int idx; int live; int plain; } blk_t;
+typedef struct { void* p; size_t size; int idx; int live; int plain; void* base; } blk_t;
 static blk_t g_blk[MAXBLK];
 static int g_nblk, g_nalloc, g_nfailed, g_dfree, g_foreign, g_pfree;
 static int g_fault[MAXFAULT], g_nfault;
 static pthread_mutex_t g_mu = PTHREAD_MUTEX_INITIALIZER;
 static char* g_ev; static size_t g_evlen, g_evcap;
 static int g_armed;
+static size_t g_misalign;   /* C13_MISALIGN=8: the custom allocator returns blocks that are 8- but not 16-byte aligned */
 
 static void ev(const char* fmt, long a, long b) {
     char tmp[64]; int n = snprintf(tmp, sizeof tmp, fmt, a, b);
@@ -86,8 +87,9 @@ static void* lib_alloc(size_t size, int plain, int zero) {
     g_nalloc++;
     for (i = 0; i < g_nfault; i++) if (g_fault[i] == g_nalloc) fail = 1;
     if (fail) { g_nfailed++; ev(plain ? "n%ld:%ld" : "N%ld:%ld", g_nalloc, (long)size); pthread_mutex_unlock(&g_mu); return NULL; }
-    p = __real_malloc(size ? size : 1);
-    if (!p) { fprintf(stderr, "c13_fault: real malloc failed\n"); _exit(97); }
+    {   size_t const off = (!plain && g_misalign) ? g_misalign : 0; char* const base = (char*)__real_malloc((size ? size : 1) + off);
+        if (!base) { fprintf(stderr, "c13_fault: real malloc failed\n"); _exit(97); }
+        p = base + off; if (g_nblk < MAXBLK) g_blk[g_nblk].base = base; }
     if (zero) memset(p, 0, size);
 #if !defined(__SANITIZE_ADDRESS__)
     else memset(p, 0xA5, size);
@@ -136,7 +138,7 @@ static int release_block(void* p, const char* okfmt, const char* dfmt, int* plai
     if (i >= 0 && g_blk[i].live) {
         g_blk[i].live = 0; ev(okfmt, g_blk[i].idx, 0); res = 1;
 #if defined(__SANITIZE_ADDRESS__)
-        __real_free(p);
+        __real_free(g_blk[i].base);
 #else
         memset(p, 0xDD, g_blk[i].size);   /* quarantine for the life of the case: addresses stay unique */
 #endif
@@ -353,8 +355,8 @@ static int op_dstream(const char* name, ZSTD_DCtx* d, const void* frame, size_t 
     if (cap < en + 64) { cap = en + 64; if (out) __real_free(out); out = (char*)__real_malloc(cap); }
     for (t = 0; t < MAXTRY; t++) {
         int nf0 = g_nfailed; size_t r = 1; size_t ip = 0, op = 0;
-        {   const unsigned char* f8 = (const unsigned char*)frame;   /* a v0.5 / v0.6 / v0.7 frame: its own call name for the tie */
-            if (fn > 4 && f8[0] >= 0x25 && f8[0] <= 0x27 && f8[1] == 0xB5 && f8[2] == 0x2F && f8[3] == 0xFD) beg("lstream", (long)(f8[0] - 0x20), -1);
+        {   const unsigned char* f8 = (const unsigned char*)frame;   /* a v0.4 ... v0.7 frame: its own call name for the tie */
+            if (fn > 4 && f8[0] >= 0x24 && f8[0] <= 0x27 && f8[1] == 0xB5 && f8[2] == 0x2F && f8[3] == 0xFD) beg("lstream", (long)(f8[0] - 0x20), -1);
             else beg("dstream", -1, -1); }
         while (ip < fn) {
             size_t const ci = (fn - ip < chunk) ? fn - ip : chunk;
@@ -732,7 +734,7 @@ static size_t make_legacy(unsigned char* out, unsigned ver, unsigned wlog, size_
     out[p++] = (unsigned char)(0x20 + ver); out[p++] = 0xB5; out[p++] = 0x2F; out[p++] = 0xFD;
     if (ver == 7) { out[p++] = 0x00; out[p++] = (unsigned char)((wlog - 10) << 3); }
     else if (ver == 6) { out[p++] = (unsigned char)(wlog - 12); }
-    else { out[p++] = (unsigned char)(wlog - 11); }
+    else { out[p++] = (unsigned char)(wlog - 11); }   /* v0.5 and v0.4: one byte, windowLog - 11 */
     out[p++] = 0x40 | (unsigned char)((n >> 16) & 7); out[p++] = (unsigned char)(n >> 8); out[p++] = (unsigned char)n;
     for (i = 0; i < n; i++) out[p++] = (unsigned char)('a' + i % 26);
     out[p++] = 0xC0; out[p++] = 0; out[p++] = 0;
@@ -1045,6 +1047,192 @@ static void sc_seekable(int v) {
     mark("free"); beg("seekable_free", -1, -1); ZSTD_seekable_free(zs); ZSTD_seekTable_free(st); endc("");
 }
 
+
+/* ------------------------------------------------------------------ round 3: second doors */
+
+/* probes that must be harmless on a context whose last operation failed (before any reset) */
+static void probe_cctx(ZSTD_CCtx* c) {
+    if (!c) return;
+    {   size_t const s = ZSTD_sizeof_CCtx(c); ZSTD_frameProgression const fp = ZSTD_getFrameProgression(c); size_t const tf = ZSTD_toFlushNow(c);
+        if (s < sizeof(void*) || ZSTD_isError(s)) violation("sizeof-after-failure", "sizeof_CCtx"); (void)fp; (void)tf; }
+}
+static void probe_dctx(ZSTD_DCtx* d) {
+    if (!d) return;
+    {   size_t const s = ZSTD_sizeof_DCtx(d); if (s < sizeof(void*) || ZSTD_isError(s)) violation("sizeof-after-failure", "sizeof_DCtx"); }
+}
+
+/* v0.4 frames (library built with ZSTD_LEGACY_SUPPORT <= 4; scenarios "leg4_*" are run with that build only):
+   v 0: one v0.4 frame streamed twice, then a larger window;  1: v0.4, v0.5, v0.4, v0.7, v0.4 (version switches);  2: one-shot */
+static void sc_legacy4(int v) {
+    static unsigned char fr[4][4200]; static size_t fl[4]; static unsigned char frbig[4200]; size_t flbig; static char expect[4000]; static char out[8192];
+    ZSTD_DCtx* d; size_t const n = 3000; int i;
+    for (i = 0; i < 4; i++) fl[i] = make_legacy(fr[i], 4 + (unsigned)i, 17, n);
+    flbig = make_legacy(frbig, 4, 19, n);
+    for (i = 0; i < (int)n; i++) expect[i] = (char)('a' + i % 26);
+    mark("create"); d = mk_dctx(); if (!d) return;
+    if (v == 0) {
+        mark("v04"); op_dstream("dstream-v04", d, fr[0], fl[0], expect, n, 700, 900);
+        mark("v04-again"); op_dstream("dstream-v04b", d, fr[0], fl[0], expect, n, 5000, 5000);
+        mark("v04-big"); op_dstream("dstream-v04c", d, frbig, flbig, expect, n, 100, 300);
+        mark("v04-small"); op_dstream("dstream-v04d", d, fr[0], fl[0], expect, n, 333, 100);
+    } else if (v == 1) {
+        mark("v04"); op_dstream("dstream-v04", d, fr[0], fl[0], expect, n, 700, 900);
+        mark("v05"); op_dstream("dstream-v05", d, fr[1], fl[1], expect, n, 5000, 5000);
+        mark("v04-again"); op_dstream("dstream-v04b", d, fr[0], fl[0], expect, n, 100, 300);
+        mark("v07"); op_dstream("dstream-v07", d, fr[3], fl[3], expect, n, 333, 100);
+        mark("v04-big"); op_dstream("dstream-v04c", d, frbig, flbig, expect, n, 5000, 5000);
+    } else {
+        int t;
+        for (t = 0; t < MAXTRY; t++) { int nf0 = g_nfailed; size_t r; beg("decompressDCtx", -1, -1); r = ZSTD_decompressDCtx(d, out, sizeof out, fr[0], fl[0]);
+            judge("decompressDCtx-v04", ZSTD_isError(r), ZSTD_isError(r) ? r : 0, nf0, t);
+            if (!ZSTD_isError(r)) { if (r != n || memcmp(out, expect, n)) violation("decoded-output-mismatch", "decompressDCtx-v04"); break; } }
+        if (t == MAXTRY) violation("not-reusable-after-reset", "decompressDCtx-v04");
+    }
+    mark("free"); fr_dctx(d);
+}
+
+/* ZSTD_DCtx_refDDict whose hash-set allocation fails: the call reports memory_allocation, so it must not have taken effect.
+   v 0: first reference (set creation fails);  1: the 17th reference (expansion fails).  The caller releases the DDict the failed
+   call was given (it was told the reference failed) and decodes a frame that names that dictionary: dictionary_wrong (or any
+   clean error) is the only acceptable outcome; success means the DCtx still uses the released DDict */
+static void sc_refddict_fail(int v) {
+    ZSTD_DCtx* d; ZSTD_DDict* dds[NDD]; int i, nd = (v & 1) ? 17 : 1; static char out[8192]; int refused = 0; size_t r; int const freeFirst = v & 2;
+    memset(dds, 0, sizeof dds);
+    mark("create"); d = mk_dctx(); if (!d) return;
+    { size_t rr = ZSTD_DCtx_setParameter(d, ZSTD_d_refMultipleDDicts, ZSTD_rmd_refMultipleDDicts); if (ZSTD_isError(rr)) violation("setParameter-error", "refMultipleDDicts"); }
+    mark("ddicts");
+    /* the dictionary of g_fr_dict (g_dicts[7]) is the LAST one referenced */
+    for (i = 0; i < nd; i++) { dds[i] = mk_ddict(g_dicts[i == nd - 1 ? 7 : (i == 7 ? nd - 1 : i)], 0, i); if (!dds[i]) goto out; }
+    mark("ref");
+    for (i = 0; i < nd; i++) { int nf0 = g_nfailed; beg("refDDict", i, -1); r = ZSTD_DCtx_refDDict(d, dds[i]);
+        judge("refDDict", ZSTD_isError(r), ZSTD_isError(r) ? r : 0, nf0, 0);
+        if (ZSTD_isError(r)) { probe_dctx(d); if (i == nd - 1) refused = 1; if (freeFirst) { fr_ddict(dds[i], i); dds[i] = NULL; } } }
+    mark("decompress");
+    { beg("decompressDCtx", -1, -1); r = ZSTD_decompressDCtx(d, out, sizeof out, g_fr_dict, g_fr_dict_n); endc(ZSTD_isError(r) ? ename(r) : "ok");
+      if (refused && !ZSTD_isError(r)) violation("failed-refDDict-took-effect", "decompressDCtx");
+      if (!refused && (ZSTD_isError(r) || r != 4000 || memcmp(out, g_src + 100000 + 7 * 600, 4000))) violation("decoded-output-mismatch", "decompressDCtx"); }
+out:
+    mark("free"); fr_dctx(d); for (i = 0; i < nd; i++) if (dds[i]) fr_ddict(dds[i], i);
+}
+
+/* ZSTD_DCtx_reset(parameters) releases the multi-DDict set (b70602d); the set is created again by the next reference */
+static void sc_dctx_reset_multi(int v) {
+    ZSTD_DCtx* d; ZSTD_DDict* dds[NDD]; int i, rep, nd = 20; static char out[8192]; (void)v;
+    memset(dds, 0, sizeof dds);
+    mark("create"); d = mk_dctx(); if (!d) return;
+    mark("ddicts");
+    for (i = 0; i < nd; i++) { dds[i] = mk_ddict(g_dicts[i], i & 1, i); if (!dds[i]) goto out; }
+    for (rep = 0; rep < 2; rep++) {
+        { size_t rr = ZSTD_DCtx_setParameter(d, ZSTD_d_refMultipleDDicts, ZSTD_rmd_refMultipleDDicts); if (ZSTD_isError(rr)) violation("setParameter-error", "refMultipleDDicts"); }
+        mark("ref");
+        for (i = 0; i < nd; i++) { int t;
+            for (t = 0; t < MAXTRY; t++) { int nf0 = g_nfailed; size_t r; beg("refDDict", i, -1); r = ZSTD_DCtx_refDDict(d, dds[i]);
+                judge("refDDict", ZSTD_isError(r), ZSTD_isError(r) ? r : 0, nf0, t); if (!ZSTD_isError(r)) break; probe_dctx(d); }
+            if (t == MAXTRY) violation("not-reusable-after-reset", "refDDict"); }
+        mark("decompress");
+        { int nf0 = g_nfailed; size_t r; beg("decompressDCtx", -1, -1); r = ZSTD_decompressDCtx(d, out, sizeof out, g_fr_dict, g_fr_dict_n); judge("decompressDCtx-multi", ZSTD_isError(r), ZSTD_isError(r) ? r : 0, nf0, 0);
+          if (!ZSTD_isError(r) && (r != 4000 || memcmp(out, g_src + 100000 + 7 * 600, r))) violation("decoded-output-mismatch", "decompressDCtx-multi"); }
+        mark("reset-params"); { size_t rr; beg("DCtx_reset_params", -1, -1); rr = ZSTD_DCtx_reset(d, ZSTD_reset_session_and_parameters); endc(ZSTD_isError(rr) ? "E" : "ok"); }
+        { int nf0 = g_nfailed; size_t r; beg("decompressDCtx", -1, -1); r = ZSTD_decompressDCtx(d, out, sizeof out, g_fr_small, g_fr_small_n);
+          judge("decompressDCtx-plain", ZSTD_isError(r), ZSTD_isError(r) ? r : 0, nf0, 0); }
+    }
+out:
+    mark("free"); fr_dctx(d); for (i = 0; i < nd; i++) if (dds[i]) fr_ddict(dds[i], i);
+}
+
+/* ZSTD_CCtx_refThreadPool after a multithreaded frame: the multithreaded context is dropped and rebuilt around the new pool at the
+   next frame (7b3a25e).  v 0: own pool -> shared pool -> own pool;  1: shared pool A -> shared pool B (more threads) -> NULL, streaming */
+static void sc_mt3_refpool(int v) {
+    ZSTD_CCtx* c; ZSTD_threadPool *tp = NULL, *tp2 = NULL; size_t const n = 1400000; size_t r;
+    mark("create"); c = mk_cctx(); if (!c) return;
+    setp(c, ZSTD_c_compressionLevel, 1); setp(c, ZSTD_c_jobSize, 1 << 19); setp(c, ZSTD_c_nbWorkers, 2);
+    if (v == 1) { mark("threadPoolA"); RETRY("createThreadPool", tp2 = ZSTD_createThreadPool(1), tp2 == NULL, 0);
+                  if (tp2) { beg("refThreadPool", -1, -1); r = ZSTD_CCtx_refThreadPool(c, tp2); endc(ZSTD_isError(r) ? "E" : "ok"); } }
+    mark("compress"); if (v == 1) op_cstream("mt3-cstream", c, g_src, n, 200000, 150000, 3); else op_compress2("mt3-compress2", c, g_src, n, NULL, 0);
+    mark("threadPool"); RETRY("createThreadPool", tp = ZSTD_createThreadPool(3), tp == NULL, 0);
+    if (tp) { beg("refThreadPool", -1, -1); r = ZSTD_CCtx_refThreadPool(c, tp); endc(ZSTD_isError(r) ? "E" : "ok"); if (ZSTD_isError(r)) violation("refThreadPool-error", "refThreadPool"); }
+    probe_cctx(c);
+    mark("compress-shared"); if (v == 1) op_cstream("mt3-cstream-shared", c, g_src + 1, n, 200000, 150000, 3); else op_compress2("mt3-compress2-shared", c, g_src + 1, n, NULL, 0);
+    mark("unref"); { beg("refThreadPool", -1, -1); r = ZSTD_CCtx_refThreadPool(c, NULL); endc(ZSTD_isError(r) ? "E" : "ok"); if (ZSTD_isError(r)) violation("refThreadPool-error", "refThreadPool"); }
+    if (tp) { beg("freeThreadPool", -1, -1); ZSTD_freeThreadPool(tp); endc(""); tp = NULL; }
+    probe_cctx(c);
+    mark("compress-own"); setp(c, ZSTD_c_nbWorkers, 3); op_compress2("mt3-compress2-own", c, g_src + 2, n, NULL, 0);
+    mark("free"); fr_cctx(c);
+    if (tp2) { beg("freeThreadPool", -1, -1); ZSTD_freeThreadPool(tp2); endc(""); }
+}
+
+/* ZSTD_copyCCtx into destinations with a history: v 0: the destination compressed multithreaded frames before (it owns a
+   ZSTDMT_CCtx and still requests nbWorkers = 2) and a local dictionary; 1: source prepared with a dictionary at level 19 (large
+   tables), destination used before with a tiny workspace; after a failed copy the destination runs a different operation, then the
+   copy again; 2: the source is copied twice into the same destination, the second copy after a frame */
+static void sc_copy_cctx2(int v) {
+    ZSTD_CCtx *a, *b; size_t r; int t; size_t const n = 60000;
+    mark("create"); a = mk_cctx(); if (!a) return; b = mk_cctx(); if (!b) { fr_cctx(a); return; }
+    if (v == 0) {
+        mark("dst-history"); setp(b, ZSTD_c_nbWorkers, 2); setp(b, ZSTD_c_jobSize, 1 << 19); setp(b, ZSTD_c_compressionLevel, 1);
+        { int nf0 = g_nfailed; r = do_load_dict(b, 0, g_dict); judge("loadDictionary", ZSTD_isError(r), ZSTD_isError(r) ? r : 0, nf0, 0); }
+        op_compress2("dst-mt-compress2", b, g_src, 1400000, g_dict, g_dictSize);
+    } else {
+        mark("dst-history"); setp(b, ZSTD_c_compressionLevel, 1); op_compress2("dst-compress2-tiny", b, g_src, 500, NULL, 0);
+    }
+    for (t = 0; t < 2; t++) {
+        int tt;
+        mark("begin");
+        for (tt = 0; tt < MAXTRY; tt++) { int nf0 = g_nfailed; beg("compressBegin", -1, -1);
+            r = (v == 1) ? ZSTD_compressBegin_usingDict(a, g_dict, g_dictSize, 19) : ZSTD_compressBegin_usingDict(a, g_dict, g_dictSize, 5);
+            judge("compressBegin", ZSTD_isError(r), ZSTD_isError(r) ? r : 0, nf0, tt); if (!ZSTD_isError(r)) break; }
+        if (tt == MAXTRY) { violation("not-reusable-after-reset", "compressBegin"); break; }
+        mark("copy");
+        {   int nf0 = g_nfailed; beg("copyCCtx", -1, -1); r = ZSTD_copyCCtx(b, a, n); judge("copyCCtx", ZSTD_isError(r), ZSTD_isError(r) ? r : 0, nf0, 0);
+            if (ZSTD_isError(r)) {   /* a different operation on the destination, then the copy again */
+                probe_cctx(b);
+                { beg("CCtx_reset", -1, -1); ZSTD_CCtx_reset(b, ZSTD_reset_session_only); endc("ok"); }
+                mark("dst-other"); op_compress2("dst-compress2-after-failed-copy", b, g_src + 7, 30000, v == 0 ? g_dict : NULL, v == 0 ? g_dictSize : 0);
+                mark("copy-again"); nf0 = g_nfailed; beg("copyCCtx", -1, -1); r = ZSTD_copyCCtx(b, a, n); judge("copyCCtx", ZSTD_isError(r), ZSTD_isError(r) ? r : 0, nf0, 1);
+            }
+            if (!ZSTD_isError(r)) {
+                size_t cs = ZSTD_compressEnd(b, g_scratch, g_scratchCap, g_src + 100000 + 7 * 600, n);
+                if (ZSTD_isError(cs)) violation("compressEnd-error", "copyCCtx"); else check_rt("copyCCtx", g_scratch, cs, g_src + 100000 + 7 * 600, n, g_dict, g_dictSize);
+            } }
+        { size_t cs = ZSTD_compressEnd(a, g_scratch, g_scratchCap, g_src + 100000, 1000); (void)cs; }   /* the source finishes its own frame */
+        if (v != 2) break;
+        mark("dst-frame"); op_compress2("dst-compress2-between", b, g_src + 9, 200000, NULL, 0);
+    }
+    if (v == 0) { mark("dst-mt-again"); op_compress2("dst-mt-compress2-again", b, g_src + 3, 1400000, g_dict, g_dictSize); }
+    mark("free"); fr_cctx(a); fr_cctx(b);
+}
+
+/* trainers, more configurations: v 0 cover optimiser over d (6, 8) and k with 1 thread; 1 the same with 3 threads; 2 fastcover
+   optimiser over d with 3 threads, f = 10; 3 cover optimiser, splitPoint 1.0; 4 legacy trainer with few small samples;
+   5 ZDICT_trainFromBuffer_cover with a tiny dictionary capacity;  6 finalizeDictionary with a content smaller than the minimum */
+static void sc_train2(int v) {
+    static char dict[1 << 14]; size_t const cap = sizeof dict; int t, i; size_t r = 0;
+    const char* samples = g_src + 400000;
+    static const char* names[] = { "optimize_cover_d_k", "optimize_cover_d_k_mt3", "optimize_fastcover_d_mt3", "optimize_cover_split1", "train_legacy_small", "train_cover_tiny", "finalize_small" };
+    for (i = 0; i < NSAMP; i++) g_ssz[i] = SSAMP;
+    mark("train");
+    for (t = 0; t < MAXTRY; t++) {
+        int nf0 = g_nfailed;
+        beg(names[v], -1, -1);
+        switch (v) {
+        case 0: { ZDICT_cover_params_t p; memset(&p, 0, sizeof p); p.steps = 2; p.nbThreads = 1; p.zParams.compressionLevel = 1; r = ZDICT_optimizeTrainFromBuffer_cover(dict, 2048, samples, g_ssz, 60, &p); break; }
+        case 1: { ZDICT_cover_params_t p; memset(&p, 0, sizeof p); p.steps = 2; p.nbThreads = 3; p.zParams.compressionLevel = 1; r = ZDICT_optimizeTrainFromBuffer_cover(dict, 2048, samples, g_ssz, 60, &p); break; }
+        case 2: { ZDICT_fastCover_params_t p; memset(&p, 0, sizeof p); p.steps = 2; p.f = 10; p.accel = 3; p.nbThreads = 3; p.zParams.compressionLevel = 1; r = ZDICT_optimizeTrainFromBuffer_fastCover(dict, 2048, samples, g_ssz, 60, &p); break; }
+        case 3: { ZDICT_cover_params_t p; memset(&p, 0, sizeof p); p.d = 6; p.steps = 2; p.nbThreads = 2; p.splitPoint = 1.0; p.zParams.compressionLevel = 1; r = ZDICT_optimizeTrainFromBuffer_cover(dict, 2048, samples, g_ssz, 60, &p); break; }
+        case 4: { ZDICT_legacy_params_t p; memset(&p, 0, sizeof p); p.selectivityLevel = 3; p.zParams.notificationLevel = 0; r = ZDICT_trainFromBuffer_legacy(dict, 2048, samples, g_ssz, 40, p); break; }
+        case 5: { ZDICT_cover_params_t p; memset(&p, 0, sizeof p); p.k = 64; p.d = 6; p.zParams.compressionLevel = 1; r = ZDICT_trainFromBuffer_cover(dict, 512, samples, g_ssz, 60, p); break; }
+        default: { ZDICT_params_t p; memset(&p, 0, sizeof p); p.compressionLevel = 1; r = ZDICT_finalizeDictionary(dict, 1024, g_src + 600000, 200, samples, g_ssz, 60, p); break; }
+        }
+        {   int const failed = ZDICT_isError(r); int const newfail = g_nfailed - nf0;
+            endc(failed ? ename(r) : "ok");
+            if (failed) { oplog(names[v], ename(r)); if (newfail == 0) violation(t ? "error-after-retry-without-alloc-failure" : "error-without-alloc-failure", names[v]); }
+            else { oplog(names[v], t ? "ok-retry" : "ok"); if (newfail) { g_succ_despite_fail++; oplog(names[v], "note-success-despite-alloc-failure"); }
+                   if (r == 0 || r > cap) violation("trained-dictionary-size-out-of-range", names[v]); else check_dict(names[v], dict, r);
+                   return; } }
+    }
+    violation("training-keeps-failing", names[v]);
+}
+
 static const scen_t g_scen[] = {
     { "cctx_create", sc_cctx_create, 0, 0 },
     { "cctx_params", sc_cctx_params, 0, 0 },
@@ -1081,6 +1269,14 @@ static const scen_t g_scen[] = {
     { "invalid_dict", sc_dict_invalid, 0, 0 },
     { "rand_0", sc_rand, 0, 0 }, { "rand_1", sc_rand, 1, 0 }, { "rand_2", sc_rand, 2, 0 }, { "rand_3", sc_rand, 3, 0 }, { "rand_4", sc_rand, 4, 0 }, { "rand_5", sc_rand, 5, 0 },
     { "seekable_rw", sc_seekable, 0, 0 }, { "seekable_reinit", sc_seekable, 1, 0 },
+    /* round 3 */
+    { "leg4_v04", sc_legacy4, 0, 0 }, { "leg4_versions", sc_legacy4, 1, 0 }, { "leg4_oneshot", sc_legacy4, 2, 0 },
+    { "refddict_fail_first", sc_refddict_fail, 0, 0 }, { "refddict_fail_expand", sc_refddict_fail, 1, 0 }, { "refddict_fail_first_free", sc_refddict_fail, 2, 0 }, { "refddict_fail_expand_free", sc_refddict_fail, 3, 0 },
+    { "refddict_reset_multi", sc_dctx_reset_multi, 0, 0 },
+    { "mt3_refpool", sc_mt3_refpool, 0, 0 }, { "mt3_refpool_stream", sc_mt3_refpool, 1, 0 },
+    { "copy2_mt_dst", sc_copy_cctx2, 0, 0 }, { "copy2_l19", sc_copy_cctx2, 1, 1 }, { "copy2_twice", sc_copy_cctx2, 2, 0 },
+    { "train_r3_cover_dk", sc_train2, 0, 1 }, { "train_r3_cover_dk_mt3", sc_train2, 1, 1 }, { "train_r3_fastcover_d_mt3", sc_train2, 2, 1 }, { "train_r3_cover_split1", sc_train2, 3, 1 },
+    { "train_r3_legacy_small", sc_train2, 4, 0 }, { "train_r3_cover_tiny", sc_train2, 5, 0 }, { "train_r3_finalize_small", sc_train2, 6, 0 },
 };
 #define NSCEN ((int)(sizeof g_scen / sizeof *g_scen))
 
@@ -1160,6 +1356,7 @@ int main(int argc, char** argv) {
     const scen_t* s; int timeout_s = 60;
     if (argc < 2) return 2;
     if (getenv("C13_TIMEOUT")) timeout_s = atoi(getenv("C13_TIMEOUT"));
+    if (getenv("C13_MISALIGN")) g_misalign = (size_t)atoi(getenv("C13_MISALIGN"));
     if (!strcmp(argv[1], "list")) { int i; for (i = 0; i < NSCEN; i++) printf("%s %d\n", g_scen[i].name, g_scen[i].heavy); return 0; }
     if (argc < 3 || !(s = find(argv[2]))) { fprintf(stderr, "unknown scenario\n"); return 2; }
     prepare();
